@@ -256,6 +256,7 @@ enum Ev<'a> {
 impl Oracle for IinOracle {
     fn step(&mut self, _world: &World, step: &Step) -> Option<Violation> {
         if self.desync {
+            self.bump("probe.step_not_judged_after_ledger_mismatch");
             return None;
         }
         if step.connected || step.disconnected {
@@ -562,6 +563,7 @@ impl Oracle for IinOracle {
                             }
                         }
                     }
+                    self.bump("probe.response_event_bits_judged");
                     let want = (bits[0], bits[1], bits[2], snap.overflow);
                     let actual = (
                         iin.0 & 0x02 != 0,
